@@ -130,13 +130,16 @@ def showState (m : M) : String :=
   let c := m.c
   let min := match c.tl.minDelay with | some d => toString d | none => "-"
   let admin := match c.admin with | some a => toString a | none => "-"
-  let roles := "/".intercalate ((List.range 4).map (fun r => showDots (c.roles r)))
+  let roles := "/".intercalate ((List.range 4).map (fun r =>
+    showDots ((List.range (NACC + 1)).filter (fun a => c.hasRole r a))))
+  let radm := "/".intercalate ((List.range 4).map (fun r =>
+    match OZ.Access.getRoleAdmin c.ac r with | some ar => toString ar | none => "-"))
   let st := if m.defs.isEmpty then "-" else ",".intercalate (m.defs.map (fun d => showSt c.tl d.id))
   let cs := c.tl.calls.filter (fun x => x.1 = 9)
   let calls := match cs with
     | [] => "0:-:-"
     | (_, f, a) :: _ => s!"{cs.length}:{f}:{(a.headD 0) / 3}"
-  s!"now={c.tl.now} min={min} admin={admin} roles={roles} st={st} calls={calls}"
+  s!"now={c.tl.now} min={min} admin={admin} roles={roles} radm={radm} st={st} calls={calls}"
 
 /-- decode typed argument tokens of an admin entry point -/
 def argNums (a : String) : List Nat :=
@@ -190,6 +193,16 @@ def stepLine (m : M) (line : String) : M × String :=
             parseToks self authS (sig.getD []) [.contract self FN_TRANSFER_ADMIN [vAddr a, vU32 lu]])
         | _ => none
       | "renounce" => some (.renounceAdmin, parseToks self authS (sig.getD []) [.contract self FN_RENOUNCE_ADMIN []])
+      | "setradm" =>
+        match nums with
+        | [r, ar] => some (.setRoleAdmin r ar,
+            parseToks self authS (sig.getD []) [.contract self FN_SET_ROLE_ADMIN [vSym r, vSym ar]])
+        | _ => none
+      | "renrole" =>
+        match nums with
+        | [r, k] => some (.renounceRole r k,
+            parseToks self authS (sig.getD []) [.contract self FN_RENOUNCE_ROLE [vSym r, vAddr k]])
+        | _ => none
       | "accept" => some (.acceptAdmin, parseToks self authS [] [])
       | "check" =>
         let metas := ((kv? rest "metas").bind (parseSig m.defs)).getD []
@@ -214,6 +227,7 @@ structure Obs where
   min : Option Nat
   admin : Option Nat
   roles : List (List Nat)
+  radm : List (Option Nat)
   st : List (String × Nat)
   raw : String                -- everything after the tag (and `eq=`), for "nothing changed"
   calls : String
@@ -225,6 +239,7 @@ def parseObs (line : String) : Option Obs :=
     let minS ← kv? rest "min"
     let adminS ← kv? rest "admin"
     let rolesS ← kv? rest "roles"
+    let radmS ← kv? rest "radm"
     let stS ← kv? rest "st"
     let calls ← kv? rest "calls"
     let st ← if stS = "-" then some [] else (stS.splitOn ",").mapM (fun t =>
@@ -232,8 +247,9 @@ def parseObs (line : String) : Option Obs :=
       | [c, l] => do pure (c, (← l.toNat?))
       | _ => none)
     pure { ok := tag = "ok", eq := (kv? rest "eq").map natList, now, min := minS.toNat?,
-           admin := adminS.toNat?, roles := (rolesS.splitOn "/").map dotList, st,
-           raw := s!"min={minS} admin={adminS} roles={rolesS} st={stS} calls={calls}", calls }
+           admin := adminS.toNat?, roles := (rolesS.splitOn "/").map dotList,
+           radm := (radmS.splitOn "/").map String.toNat?, st,
+           raw := s!"min={minS} admin={adminS} roles={rolesS} radm={radmS} st={stS} calls={calls}", calls }
   | _ => none
 
 /-- a defined operation as the monitor sees it: target, fn, argument text, predecessor key, salt -/
@@ -369,13 +385,22 @@ def consumedKeys (m : Mon) (kind : String) (rest : List String) : List String :=
       | _, _ => none)
   else
     let f := if kind = "update" then 0 else if kind = "grant" then 1 else if kind = "revoke" then 2
-      else if kind = "transfer" then 3 else 4
+      else if kind = "transfer" then 3 else if kind = "setradm" then 5 else if kind = "renrole" then 6 else 4
     match parseMetasM m.defs ((kv? rest "sig").getD "none") with
     | some (md :: _) => (keyOf f ((kv? rest "a").getD "-") md).toList
     | _ => []
 
+/-- admin-only entry points (`enforce_admin_auth`): the admin authorizes -/
 def isAdminKind' (kind : String) : Bool :=
-  kind = "update" || kind = "grant" || kind = "revoke" || kind = "transfer" || kind = "renounce"
+  kind = "update" || kind = "transfer" || kind = "renounce" || kind = "setradm"
+
+/-- entry points authorized by a caller named in the arguments -/
+def isCallerKind (kind : String) : Bool := kind = "grant" || kind = "revoke" || kind = "renrole"
+
+/-- the caller argument of `grant a.r.k` / `revoke a.r.k` / `renrole r.k` -/
+def callerOf (kind : String) (rest : List String) : Option Nat :=
+  let nums := argNums ((kv? rest "a").getD "-")
+  if kind = "renrole" then nums[1]? else nums[2]?
 
 /-- the monitor's ghost log after an ACCEPTED call at ledger `now` -/
 def ghostStep (m : Mon) (kind : String) (rest : List String) (now : Nat) (prevAdmin : Option Nat) : Mon :=
@@ -388,16 +413,16 @@ def ghostStep (m : Mon) (kind : String) (rest : List String) (now : Nat) (prevAd
     match m.defs[(kvNat? rest "k").getD 9999]? with
     | some d => m.set d.key .done
     | none => m
-  else if kind = "check" ∨ (isAdminKind' kind ∧ prevAdmin = some 0) then
+  else if kind = "check" ∨ (isAdminKind' kind ∧ prevAdmin = some 0) ∨
+      (isCallerKind kind ∧ callerOf kind rest = some 0) then
     (consumedKeys m kind rest).foldl (fun acc k => acc.set k .done) m
   else m
 
 def fnOfKind (kind : String) : Nat :=
   if kind = "update" then 0 else if kind = "grant" then 1 else if kind = "revoke" then 2
-  else if kind = "transfer" then 3 else 4
+  else if kind = "transfer" then 3 else if kind = "setradm" then 5 else if kind = "renrole" then 6 else 4
 
-def isAdminKind (kind : String) : Bool :=
-  kind = "update" || kind = "grant" || kind = "revoke" || kind = "transfer" || kind = "renounce"
+def isAdminKind (kind : String) : Bool := isAdminKind' kind
 
 def check (m : Mon) (opl obs : String) : Mon × Option String :=
   match parseObs obs with
@@ -435,6 +460,7 @@ def check (m : Mon) (opl obs : String) : Mon × Option String :=
           if o.min ≠ prev.min then some s!"site=controller.idle.lost the minimum delay changed over an idle gap of {n} ledgers"
           else if o.admin ≠ prev.admin then some s!"site=controller.idle.lost the admin changed over an idle gap of {n} ledgers"
           else if o.roles ≠ prev.roles then some s!"site=controller.idle.lost role membership changed over an idle gap of {n} ledgers"
+          else if o.radm ≠ prev.radm then some s!"site=controller.idle.lost a role admin changed over an idle gap of {n} ledgers"
           else if o.calls ≠ prev.calls then some s!"site=controller.idle.lost the target was called during an idle gap"
           else
             ((List.range prev.st.length).filterMap (fun k =>
@@ -453,18 +479,66 @@ def check (m : Mon) (opl obs : String) : Mon × Option String :=
       -- effects need a cause
       let effect : Option String :=
         if o.min ≠ prev.min ∧ kind ≠ "update" then some s!"site=controller.effect.min minimum delay changed by `{kind}`"
-        else if o.roles ≠ prev.roles ∧ kind ≠ "grant" ∧ kind ≠ "revoke" then some s!"site=controller.effect.roles role membership changed by `{kind}`"
+        else if o.roles ≠ prev.roles ∧ ¬ isCallerKind kind then some s!"site=controller.effect.roles role membership changed by `{kind}`"
+        else if o.radm ≠ prev.radm ∧ kind ≠ "setradm" then some s!"site=controller.effect.radm a role admin changed by `{kind}`"
         else if o.admin ≠ prev.admin ∧ kind ≠ "accept" ∧ kind ≠ "renounce" then some s!"site=controller.effect.admin admin changed by `{kind}`"
         else
           -- operations are consumed (→ Done) only by admin calls, `__check_auth` and execute_op
           let newlyDone := (List.range o.st.length).find? (fun k => stCode prev k ≠ "D" ∧ stCode o k = "D")
-          if newlyDone.isSome ∧ ¬ isAdminKind kind ∧ kind ≠ "check" ∧ kind ≠ "exec" then
+          if newlyDone.isSome ∧ ¬ isAdminKind kind ∧ ¬ isCallerKind kind ∧ kind ≠ "check" ∧ kind ≠ "exec" then
             some s!"site=controller.effect.done an operation became Done by `{kind}`"
           else none
       if effect.isSome then fin m effect else
+      -- the controller's own authorization: a descriptor whose operation for exactly this call was consumed
+      let selfAuth (a : String) (f : Nat) : Option String :=
+        match parseMetasM m.defs ((kv? rest "sig").getD "none") with
+        | none => some s!"site=controller.admin.unconsumed `{kind} {a}` accepted on the controller's own authority without any payload for the controller"
+        | some (md :: _) =>
+          (consumed m prev o f a md 0 auth).map (fun why =>
+            s!"site=controller.admin.unconsumed `{kind} {a}` accepted on the controller's own authority but {why}")
+        | some [] => some s!"site=controller.admin.unconsumed `{kind} {a}` accepted on the controller's own authority with 0 operation descriptors for 1 authorized call: no ready operation for exactly that call was consumed"
+      if isCallerKind kind then
+        let a := (kv? rest "a").getD "-"
+        let nums := argNums a
+        let f := fnOfKind kind
+        let (acct, role, caller) :=
+          if kind = "renrole" then (nums[1]?.getD 99, nums[0]?.getD 99, nums[1]?.getD 99)
+          else (nums[0]?.getD 99, nums[1]?.getD 99, nums[2]?.getD 99)
+        let members := fun (r : Nat) => prev.roles[r]?.getD []
+        -- who authorized
+        let fa : Option String :=
+          if caller = 0 then selfAuth a f
+          else if ¬ auth.contains s!"c{caller}" then some s!"site=controller.role.auth `{kind} {a}` accepted without {caller}'s authorization"
+          else none
+        -- who may
+        let fp : Option String :=
+          if kind = "renrole" then
+            (if ¬ (members role).contains caller then some s!"site=controller.role.renounce {caller} renounced role {role} which it did not hold" else none)
+          else
+            let isAdm : Bool := decide (prev.admin = some caller)
+            let viaRole : Bool := match (prev.radm[role]?).join with
+              | some ar => (members ar).contains caller
+              | none => false
+            if !isAdm && !viaRole then some s!"site=controller.role.permission `{kind} {a}`: {caller} is neither the admin nor a holder of the admin role of role {role}" else none
+        -- what changed: exactly that membership
+        let expd := (List.range prev.roles.length).map (fun r =>
+          let l := members r
+          if r ≠ role then l
+          else if kind = "grant" then (if l.contains acct then l else sortNat (acct :: l))
+          else l.erase acct)
+        let fe : Option String :=
+          if o.roles ≠ expd then some s!"site=controller.role.effect `{kind} {a}`: membership is {o.roles}, expected {expd}" else none
+        fin m (fa.orElse (fun _ => fp.orElse (fun _ => fe)))
+      else
       if isAdminKind kind then
         let a := (kv? rest "a").getD "-"
         let f := fnOfKind kind
+        let fe : Option String :=
+          if kind = "setradm" then
+            let nums := argNums a
+            if (o.radm[nums[0]?.getD 99]?).join ≠ nums[1]? then some s!"site=controller.role.effect `setradm {a}` did not store the admin role" else none
+          else none
+        if fe.isSome then fin m fe else
         match prev.admin with
         | none => fin m (some s!"site=controller.admin.noadmin `{kind}` accepted although no admin is set")
         | some 0 =>
